@@ -8,8 +8,11 @@ literal forms, independent of the lexer and of the unquoter:
   value ≤ 255: one byte), `\xHH` (one byte), `\uHHHH`, `\UHHHHHHHH` (a Unicode scalar value: ≤ 10FFFF,
   not a surrogate: its UTF-8 encoding); every other byte stands for itself; a raw newline or an
   unescaped quote of the literal's kind inside the body is malformed;
-* `"""…"""` / `'''…'''`: the body is raw (no escapes), may span lines, and must not contain three
-  consecutive quote characters (of either kind) — and must not end in a quote character;
+* `"""…"""` / `'''…'''` (delimiter `qqq`): the body is raw (no escapes), may span lines, and the
+  first occurrence of `qqq` in the text after the opening delimiter is the closing delimiter at the
+  very end: the body does not contain three consecutive `q` and does not end in `q`.  Quotes of the
+  other kind (also three in a row, `"""a'''b"""`) and mixed runs (`"""a"'"b"""`) are ordinary text,
+  and the body may begin with one or two `q` (`""""a"""` is `"a`), but `"""a""""` is not a literal;
 * `` `…` ``: the body is raw and contains no back quote (a back-quoted identifier).
 Source text is assumed to be valid UTF-8 (the property's domain).
 -/
@@ -77,8 +80,9 @@ def body : Nat → UInt8 → Bytes → Option Bytes
 
 def isQuote (c : UInt8) : Bool := c == 34 || c == 39
 
-def hasTripleQuote : Bytes → Bool
-  | a :: b :: c :: r => (isQuote a && isQuote b && isQuote c) || hasTripleQuote (b :: c :: r)
+/-- `s` contains three consecutive bytes `q` -/
+def hasTriple (q : UInt8) : Bytes → Bool
+  | a :: b :: c :: r => (a == q && b == q && c == q) || hasTriple q (b :: c :: r)
   | _ => false
 
 /-- the byte string a literal spelling denotes; none = not a well-formed string literal -/
@@ -97,8 +101,9 @@ def denote (s : Bytes) : Option Bytes :=
       if s.drop (n - 3) != [q, q, q] then none
       else
         let b := (s.drop 3).take (n - 6)
-        if hasTripleQuote b then none
-        else if (match b.getLast? with | some c => isQuote c | none => false) then none
+        -- the first `qqq` after the opening delimiter is the closing one (`C07.first_close_at_end`)
+        if hasTriple q b then none
+        else if b.getLast? == some q then none
         else some b
     else if n ≥ 2 && s.getLastD 0 == q then
       -- (`""` and `''` are the empty string; `"""` alone is not a literal)
